@@ -46,6 +46,8 @@ def translate(ctx):
     key = [f.name for f in dataclasses.fields(nt.NetworkingThread._EnqueuedMessage) if f.compare]
     senders = sender_table(nt)
     order = outbound_order(nt)
+    ranges = draw_ranges(nt)
+    jtrace = join_trace(nt)
     src = ('import SdcModel.UdpRepeat\nimport SdcModel.UdpSendLoop\nnamespace Sdc.Generated\nopen Sdc.UdpRepeat\n'
            f'def unicast : Params := {p(u)}\ndef multicast : Params := {p(m)}\n'
            f'def knownIdsMaxlen : Nat := {th._known_message_ids.maxlen}\n'
@@ -55,11 +57,129 @@ def translate(ctx):
            'def queueKey : List String := [' + ', '.join(f'"{k}"' for k in key) + ']\n'
            '/-- what `add_outbound_message` does, in program order (traced on the real method) -/\n'
            'def addOutboundOrder : List String := [' + ', '.join(f'"{k}"' for k in order) + ']\n'
+           '/-- the ranges `_repeated_enqueue_msg` asks the random source for: (multicast set?, function, a, b) -/\n'
+           'def drawRanges : List (Bool × String × Nat × Nat) := [' +
+           ', '.join(f'({"true" if mc else "false"}, "{fn}", {a}, {b})' for mc, fn, a, b in ranges) + ']\n'
+           '/-- what `NetworkingThread.join` does, in program order (thread joins with their timeout, then the closes) -/\n'
+           'def joinTrace : List (String × String) := [' + ', '.join('("%s", "%s")' % tuple(k.split(' ', 1)) for k in jtrace) + ']\n'
            '/-- every `_send_*` of WSDiscovery: (name, destination is the multicast address, parameter set handed over) -/\n'
            'def senders : List (String × Bool × Params) := [' +
            ', '.join(f'("{n}", {"true" if mc else "false"}, {p(ps)})' for n, mc, ps in senders) + ']\n'
            'end Sdc.Generated\n')
     core.write_if_changed(core.GENERATED + '/UdpParams.lean', src)
+
+
+def draw_ranges(nt):
+    """the arguments of the random draws inside the real _repeated_enqueue_msg, for both real parameter sets"""
+    out = []
+    for mc, p in ((False, nt.UNICAST_REPEAT_PARAMS), (True, nt.MULTICAST_REPEAT_PARAMS)):
+        th = _mk_thread()[1]
+        th._send_queue = queue.PriorityQueue(10000)
+
+        def randint(a, b, _mc=mc):
+            out.append((_mc, 'randint', a, b))
+            return a
+
+        def randrange(a, b=None, _mc=mc):
+            out.append((_mc, 'randrange', a, b))
+            return a
+        with mock.patch.object(nt.random, 'randint', randint), mock.patch.object(nt.random, 'randrange', randrange):
+            th._repeated_enqueue_msg(None, p)
+    return out
+
+
+def join_trace(nt):
+    """program order of NetworkingThread.join on an instance whose threads / sockets / selectors are recording stand-ins"""
+    th = _mk_thread()[1]
+    log = []
+
+    class T:
+        def __init__(self, name):
+            self.name = name
+
+        def join(self, timeout=None):
+            log.append(f'join {self.name} {timeout}')
+
+    class C:
+        def __init__(self, name):
+            self.name = name
+
+        def close(self):
+            log.append(f'close {self.name}')
+    th._recv_thread, th._send_thread, th._qread_thread = T('recv'), T('send'), T('qread')
+    th.multi_in, th.multi_out_uni_in_out = C('multi_in'), C('multi_out')
+    th._inbound_selector, th._outbound_selector = C('inbound_selector'), C('outbound_selector')
+    th.join()
+    return log
+
+
+def extreme_draw_runs(ctx, nt):
+    """The random source is asked for a range; whatever it answers inside THAT range has to give a schedule inside the
+    configured envelope: run the real code with the smallest and the largest value of each requested range."""
+    for name, p in _param_sets(ctx, nt)[:12]:
+        for pick in ('min', 'max'):
+            th = _mk_thread()[1]
+            th._send_queue = queue.PriorityQueue(10000)
+            asked = []
+
+            def randint(a, b, _pick=pick):
+                asked.append(('randint', a, b))
+                return a if _pick == 'min' else b
+
+            def randrange(a, b=None, _pick=pick):
+                asked.append(('randrange', a, b))
+                return a if _pick == 'min' else b - 1
+            with mock.patch.object(nt.random, 'randint', randint), mock.patch.object(nt.random, 'randrange', randrange), \
+                    mock.patch.object(nt.time, 'time', lambda: 0.0):
+                th._repeated_enqueue_msg(None, p)
+            ts = [round(e.send_time * 1e6) for e in sorted(th._send_queue.queue, key=lambda e: e.repeat)]
+            case = {'extreme_draws': pick, 'set': name, 'requested_ranges': asked,
+                    'params': [p.max_initial_delay_ms, p.repeat, p.min_delay_ms, p.max_delay_ms, p.upper_delay_ms]}
+            bad = oracle(p, None, None, ts)
+            if bad:
+                ctx.fail('retransmission-schedule:' + bad.split(' ')[0] + ('-gap' if 'gap' in bad else ''),
+                         f'{pick} of the ranges the code asks for {asked}: {bad}', {**case, 'impl_send_times_us': ts})
+            ctx.case(case, nontrivial=p.repeat > 0)
+            ctx.count('extreme-draw-runs')
+
+
+def join_real_threads(ctx, nt):
+    """(search only, real time ~2.5 s) stop a node while repetitions are pending and join it: everything that was queued has
+    to be transmitted before the sockets are closed"""
+    import time as _t
+    th = _mk_thread()[1]
+    sent, closed = [], []
+
+    class Sock:
+        def close(self):
+            closed.append(_t.time())
+    th.multi_in, th.multi_out_uni_in_out = Sock(), Sock()
+    key = mock.MagicMock()
+    th._outbound_selector = mock.MagicMock()
+    th._outbound_selector.select = lambda timeout=None: [] if closed else [(key, None)]
+    th._inbound_selector = mock.MagicMock()
+    th._inbound_selector.select = lambda timeout=None: (_t.sleep(0.05), [])[1]
+    th._send_msg = lambda q_msg, sock: sent.append((q_msg.repeat, bool(closed)))
+    msg = mock.MagicMock()
+    msg.p_msg.header_info_block.MessageID = 'join-id'
+    p = nt.MULTICAST_REPEAT_PARAMS
+    with mock.patch.object(nt.random, 'randint', lambda a, b: b), mock.patch.object(nt.random, 'randrange', lambda a, b=None: b - 1):
+        th.start()
+        th.add_outbound_message(msg, '239.255.255.250', 3702, p)
+    _t.sleep(0.2)
+    th.schedule_stop()
+    try:
+        th.join()
+    except Exception as ex:  # noqa: BLE001
+        ctx.fail('retransmission-loop:raised', f'join: {ex!r}', {'join_real_threads': True})
+        return
+    _t.sleep(0.3)
+    ok = [r for r, after_close in sent if not after_close]
+    case = {'join_real_threads': True, 'transmitted_before_close': ok, 'expected': 1 + p.repeat}
+    if len(ok) != 1 + p.repeat:
+        ctx.fail('retransmission-loop:count', f'stop + join with pending repetitions: {len(ok)} of {1 + p.repeat} transmissions went out before the '
+                 f'sockets were closed', case)
+    ctx.case(case, nontrivial=True)
 
 
 def outbound_order(nt, on_put=None):
@@ -220,6 +340,7 @@ def run(ctx):
     # ---- the send loop on a virtual clock: transmissions vs schedule, several overlapping messages, stop while pending
     run_send_loop(ctx, nt)
     run_register_race(ctx, nt)
+    extreme_draw_runs(ctx, nt)
     # ---- glue: every sender hands over the parameter set of its destination
     for name, mc, ps in sender_table(nt):
         want = nt.MULTICAST_REPEAT_PARAMS if mc else nt.UNICAST_REPEAT_PARAMS
@@ -505,6 +626,10 @@ def search(ctx):
             ctx.fail('retransmission-loop:' + bad[0], bad[1], {'loop_script': script, 'transmissions': sent[:40]})
             return
     run_register_race(ctx, nt)
+    extreme_draw_runs(ctx, nt)
+    if ctx.failures:
+        return
+    join_real_threads(ctx, nt)
     if ctx.failures:
         return
     for name, mc, ps in sender_table(nt):
@@ -550,6 +675,12 @@ def replay(ctx, obj):
         c2 = core.Ctx('C15', 'quick', 0)
         c2.driver_ok = False
         run_send_loop(c2, nt, [case['loop_script']])
+        for f in c2.failures:
+            print('  ', f['signature'], f['detail'])
+        return bool(c2.failures)
+    if 'extreme_draws' in case or 'join_real_threads' in case:
+        c2 = core.Ctx('C15', 'quick', 0)
+        (extreme_draw_runs if 'extreme_draws' in case else join_real_threads)(c2, nt)
         for f in c2.failures:
             print('  ', f['signature'], f['detail'])
         return bool(c2.failures)
